@@ -273,6 +273,78 @@ theorem toCum_error_of_broken_chain {u : List Cell} (hc : Consistent u)
     Except.map, Except.bind]
 
 
+/-- a cumulative triangle in canonical form in which, apart from the key sets, consecutive cells of
+every row are compatible -/
+structure WFcumUpToKeys (t : List Cell) : Prop where
+  sorted : t.Pairwise (fun a b => Cell.cmp a b = .lt)
+  notInc : ∀ c ∈ t, c.kind ≠ .incremental
+  dates : ∀ c ∈ t, c.datesOk = true
+  psValid : ∀ c ∈ t, c.ps.valid = true
+  adj : ∀ k, AdjOK (t.filter (fun c => rowKey c == k))
+
+/-- **refusal of inconsistent fields (cumulative side)**: if in some row two consecutive cells have
+different key sets, `to_incremental` raises `TriangleError`. -/
+theorem toInc_error_of_key_mismatch {t : List Cell} (h : WFcumUpToKeys t)
+    (hb : ∃ k, HasMismatch (t.filter (fun c => rowKey c == k))) :
+    Triangle.toIncremental t = .error .triangleError := by
+  obtain ⟨kb, hkb⟩ := hb
+  have G := groupBy_inv rowKey t
+  have hrows := orderedRows_of_strict h.sorted
+  have hni := not_isIncremental_of_all h.notInc
+  have rowDates : ∀ k r, r = t.filter (fun c => rowKey c == k) → CumRowDates k r := by
+    intro k r hr
+    have hsub : r.Sublist t := by rw [hr]; exact List.filter_sublist
+    have hmem : ∀ c ∈ r, c ∈ t := fun c hc => hsub.subset hc
+    have hkey : ∀ c ∈ r, rowKey c = k := by
+      intro c hc; rw [hr] at hc; simpa using (List.mem_filter.mp hc).2
+    refine ⟨hkey, fun c hc => h.dates c (hmem c hc), ?_⟩
+    exact (h.sorted.sublist hsub).imp_of_mem (fun {a b} ha hb hab =>
+      ev_lt_of_cmp_lt ((hkey a ha).trans (hkey b hb).symm)
+        (prev_none_of_notInc (h.dates a (hmem a ha)) (h.notInc a (hmem a ha)))
+        (prev_none_of_notInc (h.dates b (hmem b hb)) (h.notInc b (hmem b hb))) hab)
+  have outcome : ∀ k r, r = t.filter (fun c => rowKey c == k) →
+      ((∃ ds, incRow k r = .ok ds) ∧ ¬ HasMismatch r) ∨
+      (incRow k r = .error .triangleError ∧ HasMismatch r) := by
+    intro k r hr
+    cases r with
+    | nil => exact Or.inl ⟨⟨[], rfl⟩, fun hm => hm⟩
+    | cons c0 rest =>
+      have R := rowDates k _ hr
+      have hc0 : c0 ∈ t := by
+        have : c0 ∈ t.filter (fun c => rowKey c == k) := by rw [← hr]; simp
+        exact (List.mem_filter.mp this).1
+      have hv : k.1.1.valid = true := by
+        have := h.psValid c0 hc0
+        rw [← R.key c0 (by simp)]; exact this
+      have hadj := h.adj k
+      rw [← hr] at hadj
+      exact incRow_outcome R hv hadj
+  have hall : ∀ p ∈ orderedRows t, (∃ b, incRow p.1 p.2 = .ok b) ∨
+      incRow p.1 p.2 = .error .triangleError := by
+    intro p hp
+    rw [hrows] at hp
+    rcases outcome p.1 p.2 (G.content p hp) with ⟨hok, _⟩ | ⟨herr, _⟩
+    · exact Or.inl hok
+    · exact Or.inr herr
+  have hex : ∃ p ∈ orderedRows t, incRow p.1 p.2 = .error .triangleError := by
+    cases hf : t.filter (fun c => rowKey c == kb) with
+    | nil => rw [hf] at hkb; exact absurd hkb (fun hm => hm)
+    | cons x0 rest =>
+      have hx : x0 ∈ t.filter (fun c => rowKey c == kb) := by rw [hf]; simp
+      obtain ⟨hx0, hxk⟩ := List.mem_filter.mp hx
+      have hxk : rowKey x0 = kb := by simpa using hxk
+      obtain ⟨p, hp, hpk⟩ := G.covers x0 hx0
+      have hpk : p.1 = kb := hpk.trans hxk
+      have hcont := G.content p hp
+      refine ⟨p, by rw [hrows]; exact hp, ?_⟩
+      rcases outcome p.1 p.2 hcont with ⟨_, hno⟩ | ⟨herr, _⟩
+      · rw [hcont, hpk] at hno; exact absurd hkb hno
+      · exact herr
+  have := mapM_error_of_all (f := fun p : RowKey × List Cell => incRow p.1 p.2) _ hall hex
+  simp only [Triangle.toIncremental, hni, Bool.false_eq_true, if_false, overRows, this,
+    Except.map, Except.bind]
+
+
 /-! ### 6. non-vacuity -/
 
 def mA : Metadata := { country := some "DE" }
